@@ -1294,6 +1294,12 @@ Proof.
   apply coherentb_spec. exact (H _ (alookup_in _ _ _ Hl)).
 Qed.
 
+Lemma init_world_wellformed Hroot c :
+  coherent_prov (snd (init_world Hroot c)) /\ wf_strands (fst (init_world Hroot c)).
+Proof.
+  split; [apply coherent_init|]. intros sid s H. cbn in H. discriminate.
+Qed.
+
 (* ------------------------------------------------------------------ the scenario of the non-vacuity Example (Props/C15.v) *)
 Definition ex_init : list (slot * value) := [(10, 1); (12, 1); (14, 1)].
 Definition ex_steps : list step :=
